@@ -104,6 +104,7 @@ func (f *Feed) remove(sub *feedSub) {
 	// Delete from inbox first, which covers channels
 	// that have not been added to f.sendCases yet.
 	ch := sub.channel.Interface()
+	verifYield(6)
 	f.mu.Lock()
 	index := f.inbox.find(ch)
 	if index != -1 {
@@ -113,12 +114,15 @@ func (f *Feed) remove(sub *feedSub) {
 	}
 	f.mu.Unlock()
 
+	verifYield(7)
 	select {
 	case f.removeSub <- ch:
 		// Send will remove the channel from f.sendCases.
 	case <-f.sendLock:
 		// No Send is in progress, delete the channel now that we have the send lock.
+		verifYield(8)
 		f.sendCases = f.sendCases.delete(f.sendCases.find(ch))
+		verifYield(9)
 		f.sendLock <- struct{}{}
 	}
 }
@@ -129,9 +133,11 @@ func (f *Feed) Send(value interface{}) (nsent int) {
 	rvalue := reflect.ValueOf(value)
 
 	f.once.Do(f.init)
+	verifYield(1)
 	<-f.sendLock
 
 	// Add new cases from the inbox after taking the send lock.
+	verifYield(2)
 	f.mu.Lock()
 	f.sendCases = append(f.sendCases, f.inbox...)
 	f.inbox = nil
@@ -154,6 +160,7 @@ func (f *Feed) Send(value interface{}) (nsent int) {
 		// This should usually succeed if subscribers are fast enough and have free
 		// buffer space.
 		for i := firstSubSendCase; i < len(cases); i++ {
+			verifYield(3)
 			if cases[i].Chan.TrySend(rvalue) {
 				nsent++
 				cases = cases.deactivate(i)
@@ -164,6 +171,7 @@ func (f *Feed) Send(value interface{}) (nsent int) {
 			break
 		}
 		// Select on all the receivers, waiting for them to unblock.
+		verifYield(4)
 		chosen, recv, _ := reflect.Select(cases)
 		if chosen == 0 /* <-f.removeSub */ {
 			index := f.sendCases.find(recv.Interface())
@@ -181,6 +189,7 @@ func (f *Feed) Send(value interface{}) (nsent int) {
 	for i := firstSubSendCase; i < len(f.sendCases); i++ {
 		f.sendCases[i].Send = reflect.Value{}
 	}
+	verifYield(5)
 	f.sendLock <- struct{}{}
 	return nsent
 }
